@@ -27,6 +27,8 @@ def obligations(tier):
     o.append(Obl("create_reinit_xstream", "C08/misc.c", "ABT_barrier_create/reinit/get_num_waiters/free for EVERY uint32 count pair (reinit larger, smaller, zero) and ABT_xstream_barrier_create/wait/free wrapper over the native barrier",
                  unwind=3, backend="cadical", encodes=["ABT_barrier_create", "ABT_barrier_reinit", "ABT_barrier_get_num_waiters", "ABT_barrier_free", "ABT_xstream_barrier_create", "ABT_xstream_barrier_wait", "ABT_xstream_barrier_free"],
                  bounds="single call sequence; counts: any uint32", symbolic="waiter counts"))
+    o.append(Obl("tasklet_rejected", "C08/tasklet.c", "ABT_barrier_wait called by a tasklet (not allowed to wait in this API version) on a barrier of n waiters with c arrivals (symbolic): rejected with ABT_ERR_BARRIER and NOT counted as an arrival; counter, wait-list and lock untouched",
+                 unwind=3, unwindset=["ABTD_spinlock_acquire.0:2", "ABTD_spinlock_acquire.1:2"], object_bits=10, backend="cadical", encodes=["ABT_barrier_wait"], bounds="n <= 4", symbolic="number of waiters, arrivals so far"))
     # nesting depth 2 is not offered here: the environment programs of this harness are not re-entrant (a nested step would re-run a
     # step that is in progress) and the runs exceed the thorough budget (measured: no verdict in 900 s)
     return o
